@@ -5,26 +5,24 @@ Import ListNotations.
 
 Inductive idle (np : nat) : mpc -> Prop :=
 | idle_done : idle np MDone
-| idle_play a : idle np (MPlayAcq a false)
+| idle_play a cr : idle np (MPlayAcq a cr)
 | idle_close : idle np MCloseAcqH
 | idle_pause t : t < np -> idle np (MCtlAcq KPause t)
 | idle_resume t : t < np -> idle np (MCtlAcq KResume t)
 | idle_stop t : t < np -> idle np (MCtlAcq KStop t).
 
-Lemma fetch_idle np sc : forallb cmd_ok sc = true ->
-  idle np (fst (fetch np sc)) /\ forallb cmd_ok (snd (fetch np sc)) = true.
+Lemma fetch_idle np sc : idle np (fst (fetch np sc)).
 Proof.
-  induction sc as [|c r IH]; simpl; intro Hok; [split; [constructor|reflexivity]|].
-  apply andb_true_iff in Hok as [Hc Hr].
-  destruct c; simpl in *; try discriminate; try (split; [constructor|exact Hr]);
-    destruct (Nat.ltb_spec t np); simpl; auto; split; try exact Hr; constructor; assumption.
+  induction sc as [|c r IH]; simpl; [constructor|].
+  destruct c; simpl; try constructor;
+    destruct (Nat.ltb_spec t np); simpl; auto; constructor; assumption.
 Qed.
 
 Lemma next_cmd_inv s : inv s -> smpc s = MDone -> inv (next_cmd s).
 Proof.
   intros [G P] HM. unfold next_cmd.
-  destruct (fetch_idle (length (splayers s)) (sscript s) (proj1 (g_ok _ G))) as [Hi Hr].
-  destruct (fetch (length (splayers s)) (sscript s)) as [M r]. simpl in Hi, Hr.
+  pose proof (fetch_idle (length (splayers s)) (sscript s)) as Hi.
+  destruct (fetch (length (splayers s)) (sscript s)) as [M r]. simpl in Hi.
   split.
   - destruct G. rewrite HM in *.
     destruct Hi; constructor; simpl in *; auto; try (intuition congruence).
@@ -130,7 +128,7 @@ Ltac close1 := intros; first [ solve [fin] | solve [lt_tac] | solve [pc_tac] | s
 Ltac split_loop :=
   try match goal with |- context[loop_pc ?p] => unfold loop_pc in *; destruct (prem p) eqn:? end;
   try match goal with
-      | H : pcrash ?p = false |- context[if pcrash ?p then _ else _] => rewrite H
+      | |- context[if pcrash ?p then _ else _] => unfold crash_pc in *; destruct (pcrash p)
       end.
 
 (* facts that follow from the invariant of one player when the main pc is known *)
@@ -208,7 +206,6 @@ Proof.
             rewrite ?andb_false_r, ?andb_true_r in *; rew_known; rew_fields; close1;
             first [solve [mem_tac] | solve [misc_tac] | idtac]).
   - apply mem_false_In. intro Hin. apply g_threads_lt in Hin. lia.
-  - destruct g_ok as [_ Hcr]. eapply Hcr. reflexivity.
   - pose proof (p_home H0) as Hin. norm_in. same_player. rewrite E1 in H0. discriminate H0.
   - pose proof (p_home H0) as Hin. norm_in; first [ solve [in_side] | same_player; rewrite E1 in H0; discriminate H0 ].
 Qed.
